@@ -22,20 +22,27 @@ from vlib.common import exc_site, fp, retry_on_timeout
 LEVEL = "exploration"
 SHARD_TIMEOUT = {"quick": 280, "thorough": 1700}
 SCRIPTS = [[], ["config"], ["upload"], ["search"], ["config", "upload"], ["upload", "search"], ["config", "search"]]
-POLICIES = ["immediate", "lag1", "end"]
+POLICIES = ["immediate", "lag1", "end", "one-late"]
 SETTLE = 0.004
 
 
 def plan(tier, seed):
     specs = []
     pairs = list(itertools.product(range(len(SCRIPTS)), repeat=2))
-    nsh = 14
+    nsh = 10 if tier == "quick" else 14
     for k in range(nsh):
         specs.append({"name": f"two-{k}", "kind": "two", "pairs": pairs[k::nsh],
                       "budget_s": 150 if tier == "quick" else 1200,
                       "policies": POLICIES if tier == "thorough" else None})
-    for k in range(8 if tier == "quick" else 16):
-        specs.append({"name": f"three-{k}", "kind": "three", "index": k, "of": 8 if tier == "quick" else 16,
+    if tier == "quick":
+        # three connections, every interleaving, for the script triples where admission ORDER matters most:
+        # A is served, B waits (with or without a request), C arrives around A's close
+        for ti, (tr, every) in enumerate([((["config"], [], ["config"]), 1), ((["config"], ["search"], ["upload"]), 3)]):
+            for part in range(4):
+                specs.append({"name": f"three-exh-{ti}-{part}", "kind": "three_exh", "scripts": tr, "part": part,
+                              "parts": 4, "every": every, "budget_s": 150})
+    for k in range(4 if tier == "quick" else 16):
+        specs.append({"name": f"three-{k}", "kind": "three", "index": k, "of": 4 if tier == "quick" else 16,
                       "walks": 60 if tier == "quick" else 1500, "exhaustive1": tier == "thorough",
                       "budget_s": 150 if tier == "quick" else 1400})
     return specs
@@ -135,6 +142,7 @@ class Scheduler:
                 c = conns[j]
                 k = pos[j]
                 pos[j] += 1
+                seq_before = gate.total
                 if policy == "lag1" and lagged:
                     gate.release_all()
                 if k == 0:
@@ -169,9 +177,15 @@ class Scheduler:
                         await asyncio.wait_for(c.ws.close(), 3)
                     except Exception:
                         pass
-                lagged = gate.pending()
                 await self.settle(gate, policy)
                 lagged = gate.pending()
+                if policy == "one-late" and lagged:
+                    # only sleepers that were already pending BEFORE this step's event are eligible
+                    # after this step's event: the sleeper that wakes first in virtual time (a back-off before a
+                    # 1 s cleanup delay) ends now; whoever arrived during this step is already queued ahead of it
+                    if gate.release_earliest(before_seq=seq_before):
+                        await asyncio.sleep(SETTLE)
+                    lagged = gate.pending()
                 max_open = max(max_open, sum(1 for x in conns if x.open_step and not x.is_closed))
             # ---- end of the schedule: close everything, let every cleanup run
             self.t += 1
@@ -199,6 +213,11 @@ class Scheduler:
                         waiter_existed = True
                     if kind == "reader-error":
                         acc.count("reader_errors")
+                    if kind == "closed" and c.server_closed_step == t and c.close_step is None and \
+                            any(ts <= t for ts, _ in c.sent):
+                        # the server closes a connection only to refuse a request it has just processed: that is a
+                        # reply to a request too (the unchanged server never delivers {'ok': False})
+                        kind, det = "reply", ("refusal-by-closure", "refused", None)
                     if kind != "reply":
                         continue
                     acc.count("replies")
@@ -334,7 +353,7 @@ async def amain(spec, acc, ctx):
         for (a, b) in spec["pairs"]:
             scripts = [SCRIPTS[a], SCRIPTS[b]]
             for n, order in enumerate(interleavings([len(s) + 2 for s in scripts])):
-                pols = spec["policies"] or [POLICIES[(n + a + b) % 3], POLICIES[(n + a + b + 1) % 3]]
+                pols = spec["policies"] or [POLICIES[(n + a + b) % 4], POLICIES[(n + a + b + 2) % 4]]
                 for policy in pols:
                     if stop():
                         done = False
@@ -344,6 +363,16 @@ async def amain(spec, acc, ctx):
             acc.add("two_conn_script_pairs_done", len(spec["pairs"]))
         else:
             acc.count("enumeration_incomplete")
+    elif spec["kind"] == "three_exh":
+        scripts = spec["scripts"]
+        orders = interleavings([len(x) + 2 for x in scripts])[spec["part"]::spec["parts"]][::spec.get("every", 1)]
+        for n, order in enumerate(orders):
+            if stop():
+                acc.count("enumeration_incomplete")
+                break
+            pol = POLICIES[n % len(POLICIES)]
+            await retry_on_timeout(acc, lambda: sch.run(scripts, order, pol))
+        acc.count("three_conn_exhaustive_interleavings", len(orders))
     else:
         if spec.get("exhaustive1"):
             # three connections, <= 1 request each: every interleaving, shards split the script triples
@@ -355,7 +384,7 @@ async def amain(spec, acc, ctx):
                     if stop():
                         acc.count("enumeration_incomplete")
                         break
-                    await retry_on_timeout(acc, lambda: sch.run(scripts, order, POLICIES[n % 3]))
+                    await retry_on_timeout(acc, lambda: sch.run(scripts, order, POLICIES[n % 4]))
             acc.add("three_conn_triples_done", len(triples))
         for w in range(spec["walks"]):
             if stop():
@@ -426,6 +455,7 @@ def finish(m, tier, seed):
         "probe_searches": c.get("probe_searches", 0),
         "gate_policies": {p: c.get("policy." + p, 0) for p in POLICIES},
         "three_connection_walks": c.get("three_conn_walks", 0),
+        "three_connection_interleavings_enumerated": c.get("three_conn_exhaustive_interleavings", 0),
     }
     return {"coverage": cov, "inconclusive": inc,
             "assumptions": ["events are whole messages and whole suspension points (the handlers contain no await); TCP "
